@@ -470,6 +470,8 @@ V("f-savemeta-records-format", "fire", ["C20"], PO, "        if target_fmt == \"
   "        self._metadata[\"metadata_format\"] = target_fmt\n        if target_fmt == \"pickle\":\n            with path.open(\"wb\") as fd:\n                pickle.dump(self._metadata, fd)\n", note="seed C20-15: the object is changed before the write that can fail")
 V("s-savemeta-local-copy", "silent", ["C20"], PO, "        if target_fmt == \"pickle\":\n            with path.open(\"wb\") as fd:\n                pickle.dump(self._metadata, fd)\n",
   "        payload = dict(self._metadata)\n        if target_fmt == \"pickle\":\n            with path.open(\"wb\") as fd:\n                pickle.dump(payload, fd)\n", note="a local copy is written; the object is untouched")
+VARIANTS.append({"id": "s-pickle-partition-by-key-correct", "expect": "silent", "props": ["C20", "C16"], "patch": os.path.join(HERE, "patches", "pickle-partition-by-key-correct.diff"),
+                 "note": "SystemZPreOCF pickles its partition as keys where a conditional has one and as the object otherwise (repaired form of seed C20-16): the round trip gives the partition back"})
 V("f-tpo2ranks-return-in-loop", "fire", ["C18"], PO, "            ranks[world] = rank_function(layer_num)\n    return ranks\n", "            ranks[world] = rank_function(layer_num)\n        return ranks\n")
 V("s-avg-guard-by-count", "silent", ["C14", "C06", "C13"], INF, "                \"average_query_time_ms\": total_inference_time / len(queries)\n                if queries\n                else 0,\n",
   "                \"average_query_time_ms\": total_inference_time / len(queries)\n                if len(queries)\n                else 0,\n", note="the division guarded by the count instead of the mapping")
